@@ -16,7 +16,9 @@ RENAME = {"R2B1": ("C05c", "C05"), "R2B3": ("C15c", "C15"), "R2A2": ("C04c", "C0
           "R6A1": ("C05f", "C05"), "R6A2": ("C08c", "C08"), "R6A3": ("C11f", "C11"), "R6B1": ("C09d", "C09"), "R6B2": ("C08d", "C08"),
           "R6B3": ("C13f", "C13"), "R6C1": ("C13g", "C13"), "R6C2": ("C14e", "C14"), "R6C3": ("C04f", "C04"),
           "R7A1": ("C13h", "C13"), "R7A2": ("C09e", "C09"), "R7A3": ("C13i", "C13"), "R7B1": ("C01e", "C01"), "R7B2": ("C09f", "C09"),
-          "R7B3": ("C13j", "C13"), "R7C1": ("C15h", "C15"), "R7C2": ("C03c", "C03"), "R7C3": ("C07e", "C07")}
+          "R7B3": ("C13j", "C13"), "R7C1": ("C15h", "C15"), "R7C2": ("C03c", "C03"), "R7C3": ("C07e", "C07"),
+          "R8A1": ("C03d", "C03"), "R8A2": ("C13k", "C13"), "R8A3": ("C13l", "C13"), "R8B1": ("C13m", "C13"), "R8B2": ("C13n", "C13"),
+          "R8B3": ("C13o", "C13"), "R8C1": ("C15i", "C15"), "R8C2": ("C04g", "C04"), "R8C3": ("C13p", "C13")}
 NEEDS = {
  "C01a": "is_callable_above_mark rewritten with position() (bottom-most MARK): needs nested MARKs with a callable right above the lower one and OBJ chosen with a bare MARK on top, then fixed-arity pops; ~1 in 1e5 PRNG pickles",
  "C01b": "STACK_GLOBAL guard relaxed whenever an installed mutator reports is_unsafe(): needs protocol 4/5, safe mode, the typeconfusion mutator registered",
@@ -102,6 +104,15 @@ NEEDS = {
  "R7C1": "fuzzer-mode gen_unit_f64 = bits / u64::MAX can return exactly 1.0 (independent rediscovery of C15d)",
  "R7C2": "is_set_at_mark rewritten with iterators: skip_while(is_mark) where skip(1) was meant: on [.., set, MARK, MARK, item] ADDITEMS is allowed and targets the lower MARK: needs protocol 4/5 and that shape",
  "R7C3": "BINGET with a memo above 256 entries picks from an unsorted key list (independent rediscovery of C07b/C07c)",
+ "R8A1": "with_mutators/with_mutator switch unsafe_mutations on when any mutator's is_unsafe() is true, and TypeConfusionMutator::is_unsafe() is always true: needs a safe list containing typeconfusion registered through the builders with no later with_unsafe_mutations(false), protocol 4/5",
+ "R8A2": "CLI version selection folded into select_version computing `seed as u32 % 6`: needs --seed >= 2^32 without --protocol",
+ "R8A3": "Python set_opcode_range reorders an inverted range: needs the binding called with min > max",
+ "R8B1": "batch mode hands rayon blocks of max(N/workers,1) indices but iterates only N/block blocks: the last N % block files are never written, exit 0: needs N % max(N/workers,1) != 0, e.g. (5,2), (33,16)",
+ "R8B2": "PickleMutator.mutate calls set_opcode_range(1,16) and regenerates when the result exceeds max_size, never restoring the range: needs one mutate call with a small max_size, then later calls",
+ "R8B3": "action wrapper is_true becomes 'everything except empty or false': 0/no/off switch the options on",
+ "R8C1": "the generator skips any mutator whose is_unsafe() is true unless with_unsafe_mutations(true): a Memoindex.create(true) object on a safe generator at rate 1.0 is never consulted (close to C15b, written independently)",
+ "R8C2": "type-confusion rewrite splices with the stale pre-rewrite length: with the mutator registered twice (unsafe mode) and both firing on one emission, the tail of the first replacement stays in the stream",
+ "R8C3": "batch branch sets min_opcodes = min(min, max): with --max-opcodes below --min-opcodes the --dir files no longer match the library or single-file mode",
  "R2A3": "fuzzer-mode gen_unit_f64 = bits / u64::MAX, exactly 1.0 for bits >= 0xFFFFFFFFFFFFFC00: needs fuzzer-bytes mode, rate 1.0 and eight gate bytes above that threshold",
 }
 for d in sorted(NEEDS):
